@@ -131,14 +131,32 @@ def ensure_modelrun():
 
 
 def ensure_harness(name="harness", tags="verif", cgo=True, race=False, srcdir="harness"):
-    """Build a Go harness module (under /verif/<srcdir>) against /repo's current working tree."""
+    """Build a Go harness module (under /verif/<srcdir>) against the working tree of REPO
+    (/repo unless VERIF_REPO is set).  The module's go.mod names /repo in its replace block; for
+    another REPO an alternate go.mod with rewritten paths is passed through -modfile."""
     with BuildLock():
         h = VERIF / srcdir
-        shutil.copy(REPO / "go.sum", h / "go.sum")
         ex = {"CGO_ENABLED": "1" if cgo else "0"}
-        cmd = "go build %s -tags %s -o %s ." % ("-race" if race else "", tags, BUILD / name)
+        modflag = ""
+        if str(REPO) != "/repo":
+            alt = BUILD / ("gomod_%s.mod" % name)
+            txt = (h / "go.mod").read_text()
+            txt = re.sub(r"=> /repo(?=[/\s]|$)", "=> %s" % REPO, txt, flags=re.M)
+            alt.write_text(txt)
+            shutil.copy(REPO / "go.sum", BUILD / ("gomod_%s.sum" % name))
+            modflag = "-modfile=%s" % alt
+        else:
+            shutil.copy(REPO / "go.sum", h / "go.sum")
+        cmd = "go build %s %s -tags %s -o %s ." % (modflag, "-race" if race else "", tags, BUILD / name)
         rc, out = sh(cmd, cwd=h, timeout=1800, extra_env=ex)
         return rc == 0, out
+
+
+def ensure_harness_ft(name="harness_ft", srcdir="harness"):
+    """Virtual-clock build (Go's faketime runtime tag): time.Sleep/timers advance instantly and
+    deterministically from 2009-11-10 23:00:00 UTC (unix 1257894000).  Needs CGO off; run the
+    binary with GOMAXPROCS=1 and let it write results to files (stdout is framed)."""
+    return ensure_harness(name=name, tags="verif,faketime", cgo=False, srcdir=srcdir)
 
 
 def forbidden_tokens():
